@@ -47,7 +47,8 @@ class C11(Property):
     rule = ("frameworks of 20-60 arguments (quick) / up to 300 (thorough), structured sparse (rings, chains, random blocks, bridges), well-founded ones (trees / sparse DAGs of 18-120 arguments, 12 arguments queried) plus small ones (random and unions of semantic gadgets, 160 per quick run) whose statuses are also "
             "judged by the reference deciders; for each: argument permutation + attack-line permutation and duplication, disjoint union with another framework "
             "(with and without stable extension), and the cross-semantics relations (GR in ID in PR, DS implies DC when an extension exists, ST=SST=STG when "
-            "a stable extension exists) on the answers of all seven solvers; non-trivial = framework with >= 10 arguments")
+            "a stable extension exists) on the answers of all seven solvers; plus the two binaries on transformed input files (8-300 arguments): base file, permuted / duplicated lines, "
+            "union with an unrelated framework, Aspartix presentation with shuffled declarations - same status (same extension for GR / ID); non-trivial = framework with >= 10 arguments")
     assumptions = ["relations between runs need no reference computation; small frameworks (<= 9 arguments) are additionally judged by the proved deciders"]
 
     def cases(self, tier, rng):
@@ -210,6 +211,136 @@ class C11(Property):
                             if o is not None and o != v:
                                 viol("a stable extension exists but %s-%s(%s)=%s differs from ST=%s" % (task, other, a + 1, o, v), "ST,%s/%s · differ although a stable extension exists" % (other, task))
         return fs
+
+    # ---- the binaries on transformed inputs (the property's second observation point) ----
+    needs_bins = True
+
+    def extra(self, ctx):
+        import os
+        import random
+        import subprocess
+        from concurrent.futures import ThreadPoolExecutor
+        import common
+        tier, runner = ctx["tier"], ctx["runner"]
+        rng = random.Random(ctx["seed"] + 11)
+        crust = os.path.join(common.REPO_TARGET, "release", "crustabri")
+        wrap = os.path.join(common.REPO_TARGET, "release", "crustabri_iccma23")
+        d = runner.dir
+        jobs = []
+        groups = []
+        for g in range(14 if tier == "quick" else 300):
+            r = rng.random()
+            if r < 0.35:
+                n, atts = gen.gadget_union(rng, 8) if rng.random() < 0.5 else gen.random_framework(rng, 8)
+            elif r < 0.85:
+                n, atts = big_framework(rng, rng.randint(20, 60))
+            else:
+                n, atts = big_framework(rng, rng.choice([100, 200, 300]))
+            if n == 0:
+                n, atts = 1, []
+            heavy = n > 80
+            perm = list(range(n))
+            rng.shuffle(perm)
+            patts = [(perm[a], perm[b]) for a, b in atts]
+            rng.shuffle(patts)
+            for _ in range(min(3, len(patts))):
+                patts.insert(rng.randrange(len(patts) + 1), rng.choice(patts))
+            # an unrelated component WITH a stable extension, placed before (ids shift)
+            k2, a2 = rng.choice([(1, []), (2, gen.cycle(2)), (4, gen.cycle(4)), (3, gen.chain(3)), (2, [(0, 1)])])
+            uatts = list(a2) + [(a + k2, b + k2) for a, b in atts]
+            rng.shuffle(uatts)
+            # Aspartix presentation: named arguments declared in a shuffled order, attacks shuffled
+            names = ["a%d_%s" % (i, rng.choice(["x", "Y", "_", "q1"])) for i in range(n)]
+            decl = list(range(n))
+            rng.shuffle(decl)
+            satts = list(atts)
+            rng.shuffle(satts)
+            files = {}
+            for tag, (nn, aa) in (("base", (n, atts)), ("perm", (n, patts)), ("union", (n + k2, uatts))):
+                path = os.path.join(d, "meta_%d_%s.af" % (g, tag))
+                open(path, "w").write("p af %d\n" % nn + "".join("%d %d\n" % (a + 1, b + 1) for a, b in aa))
+                files[tag] = path
+            path = os.path.join(d, "meta_%d.apx" % g)
+            open(path, "w").write("".join("arg(%s).\n" % names[i] for i in decl) + "".join("att(%s,%s).\n" % (names[a], names[b]) for a, b in satts))
+            files["apx"] = path
+            sems = [x for x in SEMS if not (heavy and x in ("SST", "STG", "ID"))]
+            for _ in range(6):
+                sem = rng.choice(sems)
+                task = rng.choice([t for t in ("SE", "DC", "DS") if not (sem == "CO" and t == "DS" and False)])
+                a = rng.randrange(n) if task != "SE" else None
+                gi = len(groups)
+                groups.append(dict(sem=sem, task=task, arg=a, n=n, files=files, perm=perm, k2=k2, names=names, res={}))
+                for tag in ("base", "perm", "union", "apx"):
+                    prob = "%s-%s" % (task, sem)
+                    if tag == "apx":
+                        cmd = [crust, "solve", "-f", files[tag], "-r", "apx", "-p", prob, "--logging-level", "off", "-c"]
+                        if a is not None:
+                            cmd += ["-a", names[a]]
+                    else:
+                        arg = None if a is None else (a if tag == "base" else perm[a] if tag == "perm" else a + k2) + 1
+                        if rng.random() < 0.5:
+                            cmd = [wrap, "-f", files[tag], "-p", prob]
+                        else:
+                            cmd = [crust, "solve", "-f", files[tag], "-p", prob, "--logging-level", "off", "-c"]
+                        if arg is not None:
+                            cmd += ["-a", str(arg)]
+                    jobs.append((gi, tag, cmd))
+
+        def run(job):
+            try:
+                pr = subprocess.run(job[2], stdout=subprocess.PIPE, stderr=subprocess.PIPE, timeout=300)
+                return pr.returncode, pr.stdout.decode(errors="replace")
+            except subprocess.TimeoutExpired:
+                return None, ""
+        with ThreadPoolExecutor(max_workers=16) as ex:
+            results = list(ex.map(run, jobs))
+        findings = []
+        for (gi, tag, cmd), (rc, out) in zip(jobs, results):
+            G = groups[gi]
+            lines = [l for l in out.split("\n") if l]
+            if rc != 0 or not lines:
+                findings.append(Finding("input", None, "exit status %s / no answer on a transformed input: %s" % (rc, " ".join(cmd)[-160:]),
+                                        "bin %s/%s · no answer on %s presentation" % (G["sem"], G["task"], tag), {"cmd": " ".join(cmd), "file": open(cmd[cmd.index("-f") + 1]).read()[:2000]}))
+                continue
+            if G["task"] == "SE":
+                if lines == ["NO"]:
+                    st = ("NO", None)
+                else:
+                    body = lines[0]
+                    if tag == "apx":
+                        mem = [x for x in body.strip("[]").split(",") if x]
+                        back = set(G["names"].index(x) for x in mem if x in G["names"])
+                    else:
+                        mem = [int(x) - 1 for x in body.split(" ")[1:]]
+                        if tag == "perm":
+                            inv = {v: k for k, v in enumerate(G["perm"])}
+                            back = set(inv[x] for x in mem)
+                        elif tag == "union":
+                            back = set(x - G["k2"] for x in mem if x >= G["k2"])
+                        else:
+                            back = set(mem)
+                    st = ("EXT", frozenset(back))
+            else:
+                st = (lines[0], None)
+            G["res"][tag] = (st, " ".join(cmd))
+        for G in groups:
+            if "base" not in G["res"]:
+                continue
+            (sb, eb), cb = G["res"]["base"]
+            for tag in ("perm", "union", "apx"):
+                if tag not in G["res"]:
+                    continue
+                (s, e), c = G["res"][tag]
+                what = {"perm": "argument / attack-line permutation and duplication", "union": "disjoint union with an unrelated framework that has a stable extension",
+                        "apx": "the Aspartix presentation with shuffled declarations"}[tag]
+                if s != sb:
+                    findings.append(Finding("input", None, "%s-%s: %s on the base file but %s under %s | %s" % (G["task"], G["sem"], sb, s, what, c[-170:]),
+                                            "bin %s/%s · status not invariant (%s)" % (G["sem"], G["task"], tag), {"cmd_base": cb, "cmd": c, "file_base": open(G["files"]["base"]).read()[:3000], "file": open(G["files"][tag]).read()[:3000]}))
+                elif G["task"] == "SE" and G["sem"] in ("GR", "ID") and eb is not None and e is not None and e != eb:
+                    findings.append(Finding("input", None, "SE-%s: the unique extension differs under %s: %s vs %s | %s" % (G["sem"], what, sorted(eb)[:12], sorted(e)[:12], c[-170:]),
+                                            "bin %s/SE · extension not invariant (%s)" % (G["sem"], tag), {"cmd_base": cb, "cmd": c, "file_base": open(G["files"]["base"]).read()[:3000], "file": open(G["files"][tag]).read()[:3000]}))
+        return findings, {"binary_runs_on_transformed_inputs": len(jobs), "binary_query_groups": len(groups),
+                          "binary_framework_sizes": sorted(set(G["n"] for G in groups))}
 
     def corpus(self):
         return []
